@@ -759,6 +759,7 @@ func TestDriveC05Run(t *testing.T) {
 			rf.Spec.HasMode = rf.Spec.Kind == "hwmon"
 			if rf.Spec.Kind == "hwmon" {
 				rf.Spec.CfgMin, rf.Spec.CfgMax = ip(mn), ip(mx)
+				rf.Spec.HasRpm = true // (a hwmon fan without RPM input is never regulated: Run finds no curve data for it and returns)
 			}
 			m := map[int]int{}
 			for v := 0; v <= 255; v++ {
@@ -788,16 +789,37 @@ func TestDriveC05Run(t *testing.T) {
 			defer h.Close(false)
 			ctx, cancel := context.WithCancel(context.Background())
 			defer cancel()
-			h.Start(ctx, Ev{"scenario": Ev{"c05run": true}})
+			// in a third of the runs the very first read of the PWM value fails (driver not ready right after boot / resume):
+			// a transient fault at start-up changes nothing about what is counted later
+			startFault := r.Intn(3) == 0
+			if startFault {
+				h.ReadFaultSkip("f1.pwm", 1, 0)
+			}
+			quiet := r.Intn(6) == 0 // nobody touches the fan at all
+			var cmu sync.Mutex
+			ncycles := 0
+			h.OnEvent = func(n int, fanId, event string) {
+				if event == "CycleEnd" {
+					cmu.Lock()
+					ncycles++
+					cmu.Unlock()
+				}
+			}
+			h.Start(ctx, Ev{"scenario": Ev{"c05run": true, "startFault": startFault}})
 			// the loop ticks at 3.6 s, 3.8 s, ...: interfere at x.7 / x.9 s, strictly between two ticks
 			time.Sleep(3700 * time.Millisecond)
+			effective := 0 // PWM values written by somebody else that differ from what the fan showed
 			for k := 0; k < 40; k++ {
-				if r.Intn(3) > 0 {
+				if r.Intn(3) > 0 && !quiet {
 					if rf.Spec.HasMode && r.Intn(2) == 0 {
 						h.Poke("f1", "mode", []int{0, 2, 3}[r.Intn(3)])
 					}
 					if r.Intn(3) > 0 {
-						h.Poke("f1", "pwm", r.Intn(256))
+						v := r.Intn(256)
+						if v != h.Reg("f1", "pwm") {
+							effective++
+						}
+						h.Poke("f1", "pwm", v)
 					}
 				}
 				time.Sleep(time.Duration(200*(1+r.Intn(3))) * time.Millisecond)
@@ -805,6 +827,9 @@ func TestDriveC05Run(t *testing.T) {
 			rec.Emit(Ev{"ev": "Cancel", "why": "done"})
 			cancel()
 			h.Wait()
+			// "a changed PWM value is counted as a third-party change, and none is counted while nothing else touches the fan"
+			rec.Emit(Ev{"ev": "C05Count", "effective": effective, "quiet": quiet, "startFault": startFault, "cycles": ncycles,
+				"unexpected": h.Ctl("f1").VerifState().Stats.UnexpectedPwmValueCount})
 			h.Final()
 		})
 	}
